@@ -194,7 +194,7 @@ func c11State(c *Ctx, n *Node) []Violation {
 }
 
 func checkC11(e *RunEnv) *CheckResult {
-	msgs := []string{"m", "100% %s done", "fix: x", "a\tb", "two\nlines", "s\nthree word line", " lead", "trail ", "é", "x: y: z"}
+	msgs := []string{"m", "100% %s done", strings.Repeat("word ", 1000), "\nbody three words here", "fix: x", "a\tb", "two\nlines", "s\nthree word line", " lead", "trail ", "é", "x: y: z"}
 	spec := &Spec{
 		Seeds: []Seed{{"S0", seedS0()}, {"S2", seedS2()}, {"chain12", seedChain(12)}},
 		Depth: e.pick(3, 4),
@@ -212,7 +212,7 @@ func checkC11(e *RunEnv) *CheckResult {
 				steps = append(steps, Seq(Write("a", content), Run("add", "a"), Run("commit", "-m", m)).WithTags(unionTags(t, messageTags(m))...))
 			}
 			for _, s := range []Step{Run("switch", "b"), Run("switch", "main"), Run("switch", "-c", "c"), Run("reset", "--soft", "HEAD@{1}"), Run("reset", "--soft", "HEAD@{0}"),
-				Run("branch", "-r", "t"), Run("branch", "b2"), Run("branch", "-d", "b2"), Run("branch", "-d", "b")} {
+				Run("branch", "-r", "t"), Run("branch", "b2"), Run("branch", "-d", "b2"), Run("branch", "-d", "b"), Run("branch", "HEAD"), Run("branch", "-d", "HEAD")} {
 				steps = append(steps, s.WithTags(t...))
 			}
 			return steps
